@@ -264,7 +264,7 @@ def frames_of(stream):
     return out
 
 
-REQ_TYPES = ('worker', 'pworker', 'ctxcreate', 'ctxdelete', 'ctxworker', 'uctxworker')
+REQ_TYPES = ('worker', 'pworker', 'ctxcreate', 'ctxdelete', 'ctxworker', 'uctxworker', 'ctxdup')
 REC_CTX_ID = 7701          # context of the healthy party: exists on every replay server ('ctxworker' requests name it)
 FAULTY_CTX_ID = 7702       # context id used by faulty 'ctxcreate' / 'ctxdelete' requests
 UNKNOWN_CTX_ID = 7703      # exists only while recording: 'uctxworker' = worker request naming an unknown context
@@ -304,6 +304,15 @@ def record_streams(addr):
             w = PersistentRemoteWorker(None, host=addr, context=cid, main_path=TARGETS_PATH)
             w.wait(10)
             out[name] = data_frames(tap, 0)
+        if cid == REC_CTX_ID:
+            # 'ctxdup': a create whose id collides with a live context (the healthy party's on the replay servers)
+            with Tap() as tap:
+                try:
+                    RemoteContext(cid, host=addr, target=tg.ctx_fun, kwargs={'tok': 9})
+                    raise MachineryError('recording: a duplicate context registration was not refused')
+                except ValueError:
+                    pass
+                out['ctxdup'] = data_frames(tap, 0)
         ctx.wait()
     with Tap() as tap:
         ctx = RemoteContext(FAULTY_CTX_ID, host=addr, target=tg.ctx_fun, kwargs={'tok': 6})
